@@ -15,6 +15,15 @@ use vkit::{Args, Rng, Stats};
 
 type GA<E, N> = GenericArray<E, N>;
 
+/// one-byte enum whose derived order is by signed discriminant
+#[repr(i8)]
+#[derive(Clone, Copy, Debug, PartialEq, Eq, PartialOrd, Ord, Hash)]
+enum Tiny {
+    Neg = -3,
+    Zero = 0,
+    Pos = 5,
+}
+
 /// Records every call the hashed value makes.
 #[derive(Default)]
 struct RecHasher {
@@ -41,6 +50,24 @@ impl Hasher for RecHasher {
     }
     fn write_usize(&mut self, i: usize) {
         self.log.push(("write_usize".into(), i.to_le_bytes().to_vec()));
+    }
+    fn write_u16(&mut self, i: u16) {
+        self.log.push(("write_u16".into(), i.to_le_bytes().to_vec()));
+    }
+    fn write_u128(&mut self, i: u128) {
+        self.log.push(("write_u128".into(), i.to_le_bytes().to_vec()));
+    }
+    fn write_i8(&mut self, i: i8) {
+        self.log.push(("write_i8".into(), i.to_le_bytes().to_vec()));
+    }
+    fn write_i16(&mut self, i: i16) {
+        self.log.push(("write_i16".into(), i.to_le_bytes().to_vec()));
+    }
+    fn write_i64(&mut self, i: i64) {
+        self.log.push(("write_i64".into(), i.to_le_bytes().to_vec()));
+    }
+    fn write_isize(&mut self, i: isize) {
+        self.log.push(("write_isize".into(), i.to_le_bytes().to_vec()));
     }
 }
 
@@ -270,6 +297,10 @@ macro_rules! exh_lens {
         exhaustive::<i32, N>($st, "i32", &[-1i32, 0, 7], |a, b| ord_pair(a, b), |a| hash_one(a));
         exhaustive::<f64, N>($st, "f64", &[f64::NAN, -0.0, 0.0, 1.0], |_, _| Ok(()), |_| Ok(()));
         exhaustive::<String, N>($st, "String", &["".to_string(), "a".to_string(), "ab".to_string()], |a, b| { ord_pair(a, b)?; maps(&[a.clone(), b.clone()]) }, |a| hash_one(a));
+        exhaustive::<i8, N>($st, "i8", &[-128i8, -1, 0, 127], |a, b| { ord_pair(a, b)?; maps(&[a.clone(), b.clone()]) }, |a| hash_one(a));
+        exhaustive::<std::cmp::Reverse<u8>, N>($st, "Reverse<u8>", &[std::cmp::Reverse(0u8), std::cmp::Reverse(1), std::cmp::Reverse(255)], |a, b| { ord_pair(a, b)?; maps(&[a.clone(), b.clone()]) }, |a| hash_one(a));
+        exhaustive::<bool, N>($st, "bool", &[false, true], |a, b| ord_pair(a, b), |a| hash_one(a));
+        exhaustive::<Tiny, N>($st, "Tiny(repr i8 enum)", &[Tiny::Neg, Tiny::Zero, Tiny::Pos], |a, b| { ord_pair(a, b)?; maps(&[a.clone(), b.clone()]) }, |a| hash_one(a));
         if $v <= 3 {
             let alpha: Vec<GA<u8, U2>> = vec![GA::from_array([0u8, 0]), GA::from_array([0u8, 1]), GA::from_array([1u8, 0])];
             exhaustive::<GA<u8, U2>, N>($st, "GA<u8,2>", &alpha, |a, b| { ord_pair(a, b)?; maps(&[a.clone(), b.clone()]) }, |a| hash_one(a));
